@@ -29,13 +29,17 @@ META = {
 THEOREMS = [
     "C03_accepts",
     "C03_refines",
+    "C03_frame",
     "C03_inv_preserved",
     "C03_history",
     "C03_importance",
     "C03_density",
     "C03_datablock_row",
-    "C03_written",
+    "C03_written_partial",
+    "C03_written_refuted",
     "C03_shared_write_refuted",
+    "exec_refines",
+    "plan_targets",
 ]
 
 TINY = [
